@@ -765,7 +765,7 @@ class Formatter:
         acc.append(json["insert"])
 
         if "columns" in json:
-            acc.append(self.sql_list(json["columns"]))
+            acc.append(self.sql_list(listwrap(json["columns"])))
         if "values" in json:
             values = json["values"]
             if all(isinstance(row, dict) for row in values):
